@@ -51,6 +51,15 @@ def run(chk):
             st, sh = C.excname(cls.get_shape, a, c)
             stv, mv = C.excname(cls.make_vertices, a, float({323: 1, 423: 2, 523: 2}[code]), c)
             meta.append(dict(code=code, a=a, c=c, st=st, sh=sh, stv=stv, mv=mv, i=len(cases)))
+            # a parameter is a number: the same point given as Python ints (and mixed int / float) is the same shape
+            if float(a).is_integer() or float(c).is_integer():
+                ai = int(a) if float(a).is_integer() else a
+                ci = int(c) if float(c).is_integer() else c
+                sti, shi = C.excname(cls.get_shape, ai, ci)
+                chk.case([code, a, c, "int-form"], True)
+                chk.count("int-parameter-form")
+                if sti != st or (st == "ok" and not same_point_set(np.array(shi.vertices, float), np.array(sh.vertices, float), 1e-12)):
+                    chk.violation("parameter-form-dependence", dict(family=code, a=repr(ai), c=repr(ci), outcome_int=sti, outcome_float=st))
             cases.append(C.encode_case("family", sc=[code, a, c]))
     # what a family hands out is the caller's: damaging a returned vertex array / shape must not change the next answer
     for code, cls, (a0, a1), (c0, c1), k in fams:
@@ -125,6 +134,10 @@ def run(chk):
         chk.case(["trunc", t], True)
         if st != st2 or (st == "ok" and not same_point_set(np.array(sh.vertices), np.array(sh2.vertices), 1e-9)):
             chk.violation("truncated-tetrahedron-family", dict(truncation=t, outcome=st, reference=st2))
+        if float(t).is_integer():
+            sti, shi = C.excname(Fm.TruncatedTetrahedronFamily.get_shape, int(t))
+            if sti != st or (st == "ok" and not same_point_set(np.array(shi.vertices, float), np.array(sh.vertices, float), 1e-12)):
+                chk.violation("parameter-form-dependence", dict(family="TruncatedTetrahedron", truncation=int(t), outcome_int=sti, outcome_float=st))
     for t in (-0.125, 1.125):
         st, _ = C.excname(Fm.TruncatedTetrahedronFamily.get_shape, t)
         if st != "ValueError":
